@@ -591,6 +591,11 @@ class BinaryReward(Rewards):
             o._argmax == self._argmax and \
             o._value == self._value)
 
+    def __reduce__(self):
+        #pickle the values themselves. The literal string made by __getstate__ (which
+        #is kept for json) can not be read back when it holds a Categorical or a nan.
+        return (BinaryReward, (self._argmax,self._value))
+
     def __getstate__(self):
         return repr((self._argmax,) if self._value == 1 else (self._argmax,self._value))
 
@@ -631,6 +636,9 @@ class HammingReward(Rewards):
         value = n_intersect/n_union
 
         return create_shape(value,shape)
+
+    def __reduce__(self):
+        return (HammingReward, (self._argmax,))
 
     def __getstate__(self):
         return repr(self._argmax)
@@ -703,8 +711,15 @@ class DiscreteReward(Rewards):
             o.rewards == self.rewards and\
             o._default == self._default)
 
+    def __reduce__(self):
+        return (_make_discrete_reward, (self._state,self._default))
+
     def __getstate__(self):
         return repr((self._state,self._default))
 
     def __setstate__(self,args):
         self._state,self._default = literal_eval(args)
+
+def _make_discrete_reward(state, default):
+    #used by DiscreteReward.__reduce__
+    return DiscreteReward(*state, default=default) if isinstance(state,tuple) else DiscreteReward(state, default=default)
